@@ -53,7 +53,7 @@ partial def parseVal (cs : List Char) : Option (BValue × List Char) :=
 
 /-- The class of inputs covered by the recorded finding F1: the implementation's grammar (EOF closes open
     containers) accepts, the strict grammar does not. -/
-def eofInsideContainer (doc : Bytes) : Bool := (decodeImpl doc).isSome && (decodeStrict doc).isNone
+def eofInsideContainer (doc : Bytes) : Bool := EofInsideContainer doc
 
 def c16 (args res : List String) : Verdict :=
   match args, res with
